@@ -36,7 +36,7 @@ def build(tier, seed):
         raise_later = 'the printer functions call standard-library operations outside the stream model\'s allow-list: %s' % extra
     else:
         raise_later = None
-    def gen(unit):
+    def gen(unit, real_newline=False):
         head = '#include "svmodel.h"\n'
         def tyof(sel):
             fn = unit.by_name[unit.resolve_name(sel)]
@@ -54,7 +54,7 @@ def build(tier, seed):
         text = text.replace('/*STMTS*/', st)
         skips = [unit.resolve_text('@{print_expr}'), unit.resolve_text('@{print_stmt}'), unit.resolve_text('@{print_decl}')]
         own = [unit.resolve_text('@{virt:%s}' % k) for k in ('literal_second', 'string_characters', 'enclosure_delimiters')]
-        if not getattr(gen, 'real_newline', False):
+        if not real_newline:
             skips.append(unit.resolve_text('@{print_newline}'))
         else:
             text = text.replace('printer_t* @{print_newline}', 'printer_t* unused_newline_contract')
@@ -68,13 +68,7 @@ def build(tier, seed):
         if k in ('newline',):
             o.kind, o.bounded = 'K5', 'indentation levels <= 6'
         if k in ('newline', 'newline_and_indent'):      # these run the REAL line-break code; every other obligation uses its contract
-            def gen2(unit, g=gen):
-                g.real_newline = True
-                try:
-                    return g(unit)
-                finally:
-                    g.real_newline = False
-            o.gen = gen2
+            o.gen = lambda unit, g=gen: g(unit, real_newline=True)      # (a parameter, not shared state: obligations are generated in parallel)
         else:
             o.gen = gen
         obs.append(o)
